@@ -386,6 +386,16 @@ def rule_sample_after_swap(ctx, rid, V):
               "the swapping writer samples the reader slots only after the pointer swap", m.span,
               {"samples_not_dominated_by_the_swap": [nm.term(b)["sp"] for b in early],
                "why": "a slot seen idle before the swap proves nothing: a reader may enter afterwards and still load the old pointer"})
+    # no other entry point of the lock samples the reader slots (an observation made in `write()` and carried to `store()` in the guard
+    # predates the swap just the same)
+    for r in V.roots:
+        if r.id == m.id:
+            continue
+        nr = V.n[r.id]
+        sb = sample_blocks(F, nr, R) if slot_borrows(nr, R) != (False, []) else set()
+        ctx.check(not sb, rid, "no-sampling-outside-store:%s@%s" % (T.split("::")[-1], keyname(r.name).split("::")[-1]),
+                  "%s does not sample the reader slots (only the swapping writer does, after its swap)" % keyname(r.name).split("::")[-1], r.span,
+                  {"samples": [nr.term(b)["sp"] for b in sorted(sb)]})
 
 
 def rule_wait_loops(ctx, rid, V):
@@ -423,3 +433,38 @@ def rule_wait_loops(ctx, rid, V):
             ctx.check(r.id not in rd and not other, rid, "wait-loop:%s@%s" % (T.split("::")[-1], keyname(r.name).split("::")[-1]),
                       "the wait loop is on the writer side and polls only the reader slots", nr.term(min(comp))["sp"],
                       {"in_read_path": r.id in rd, "other_atomic_accesses_in_loop": other})
+
+
+def rule_generation_flip(ctx, rid, V):
+    """C18.f: the generation flip is what lets the old reader slot drain while new readers go to the other one; it only works in its place —
+    after the pointer swap and after a first look at the slots (the idle one is recorded before readers are diverted into it), once per
+    publish, and nowhere else"""
+    F = ctx.F; R = V.R; T = V.T
+    m, nm, s = V.swapper()
+    dom = cfg.dominators(nm)
+    flips = [x for x in sites(F, nm) if on_field(x, R.gen) and x.op not in ("load",)]
+    key = T.split("::")[-1]
+    samples = sample_blocks(F, nm, R)
+    region = set(samples)
+    for comp in cfg.cycles(nm):
+        if comp & samples:
+            region |= comp
+    okk = len(flips) == 1
+    why = {"generation_writes_in_store": [x.sp for x in flips]}
+    if okk:
+        fb = flips[0].bb
+        after_swap = s.bb in dom[fb] and s.bb != fb
+        # some sampling region lies between the swap and the flip on every path
+        sampled_first, _ = cfg.every_path_passes(nm, s.bb, [fb], region - {fb})
+        in_loop = cfg.in_cycle(nm, fb)
+        okk = after_swap and sampled_first and not in_loop
+        why.update({"after_swap": after_swap, "slots_sampled_before_flip": sampled_first, "flip_inside_loop": in_loop})
+    ctx.check(okk, rid, "flip-in-place:%s" % key, "the swapping writer flips the generation exactly once, after the swap and after a first sampling of the reader slots, outside the wait loop",
+              flips[0].sp if flips else m.span, why)
+    for r in V.roots:
+        if r.id == m.id:
+            continue
+        nr = V.n[r.id]
+        w = [x for x in sites(F, nr) if on_field(x, R.gen) and x.op not in ("load",)]
+        ctx.check(not w, rid, "no-flip-outside-store:%s@%s" % (key, keyname(r.name).split("::")[-1]), "%s does not modify the generation" % keyname(r.name).split("::")[-1], r.span,
+                  {"writes": [x.sp for x in w], "why": "readers diverted before the idle slot was recorded fill it again; with overlapping deliveries it is never seen empty and the writer spins forever"})
